@@ -321,10 +321,8 @@ class BMC:
         if info["trivial"]:
             return dict(info, verdict=info["trivial"], solver_s=0.0, model_bits={})
         t0 = time.time()
-        try:
-            p = subprocess.run(["kissat", "-q", path], stdout=subprocess.PIPE, stderr=subprocess.STDOUT, text=True, timeout=timeout_s)
-            out = p.stdout
-        except subprocess.TimeoutExpired:
+        out = self.race(path, timeout_s)
+        if out is None:
             return dict(info, verdict="unknown", solver_s=time.time() - t0, why="kissat timeout %ds" % timeout_s)
         dt = time.time() - t0
         if "s UNSATISFIABLE" in out:
@@ -352,6 +350,25 @@ class BMC:
                     named[nm] = int(num) in lits
             return dict(info, verdict="sat", solver_s=dt, model_bits=named)
         return dict(info, verdict="unknown", solver_s=dt, why="kissat: " + out[-200:])
+
+    def race(self, path, timeout_s):
+        """portfolio of two kissat configurations on the same CNF; the first verdict wins"""
+        cfgs = [["kissat", "-q", path], ["kissat", "-q", "--unsat", path]]
+        if os.environ.get("VERIF_MIR_PORTFOLIO", "1") == "0": cfgs = cfgs[:1]
+        procs = [subprocess.Popen(c, stdout=subprocess.PIPE, stderr=subprocess.STDOUT, text=True) for c in cfgs]
+        t0 = time.time(); out = None
+        try:
+            while time.time() - t0 < timeout_s:
+                for p in procs:
+                    if p.poll() is not None:
+                        o = p.stdout.read()
+                        if "s UNSATISFIABLE" in o or "s SATISFIABLE" in o: out = o; break
+                if out is not None or all(p.poll() is not None for p in procs): break
+                time.sleep(0.2)
+        finally:
+            for p in procs:
+                if p.poll() is None: p.kill()
+        return out
 
     def model_for(self, extra, model_bits, timeout_ms=120000):
         """re-solves natively in z3 with the schedule found by kissat pinned (instant: the run is then deterministic up to inputs)"""
